@@ -120,6 +120,22 @@ namespace chaiscript {
           , children(std::move(t_children)) {
       }
 
+      /// Destroys the descendants iteratively: a long operator / call chain parses into a tree as deep as
+      /// the chain is long, and destroying that recursively overflows the native stack
+      ~AST_Node_Impl() noexcept override {
+        std::vector<AST_Node_Impl_Ptr<T>> pending(std::move(children));
+        while (!pending.empty()) {
+          auto node = std::move(pending.back());
+          pending.pop_back();
+          if (node) {
+            for (auto &child : node->children) {
+              pending.push_back(std::move(child));
+            }
+            node->children.clear();
+          }
+        }
+      }
+
       static bool get_scoped_bool_condition(const AST_Node_Impl<T> &node, const chaiscript::detail::Dispatch_State &t_ss) {
         chaiscript::eval::detail::Scope_Push_Pop spp(t_ss);
         return get_bool_condition(node.eval(t_ss), t_ss);
